@@ -163,11 +163,67 @@ PROPS["C13"] = {
     "technique": "Lean 4 proofs over exact rationals about a transliterated round_layout + differential correspondence on real TaffyTrees",
 }
 
+PROPS["C14"] = {
+    "modules": ["TaffyVerif.Props.C14"],
+    "theorems": [
+        "C14.step_inv", "C14.inv_runH", "C14.no_panic", "C14.lock_step", "C14.parent_agrees", "C14.occurs_once",
+        "C14.insert_position", "C14.add_child_position", "C14.observers_agree", "C14.total_node_count_eq_live",
+        "C14.remove_effect", "C14.index_error_unchanged", "C14.index_error_iff", "C14.set_children_effect",
+        "C14.new_leaf_effect", "C14.created_id_never_seen_before", "C14.spec_observers", "C14.cycle_reachable",
+        "SlotMapModel.insert_spec", "SlotMapModel.remove_spec", "SlotMapModel.clear_spec", "SlotMapModel.insert_lockstep",
+        "SlotMapModel.WF.len_eq", "TreeModel.err_unchanged", "TreeModel.setChildren_ok", "TreeModel.remove_ok",
+        "Fresh.step_verStep", "Fresh.seen",
+    ],
+    "harness": "C14", "driver": "C14", "monitor": True,
+    "rule": "random edit histories (4-40 ops) on the real TaffyTree<u32> over a pool of <= 12 live nodes; every op is followed by a "
+            "full dump (children/parent/child_count/child_at_index for every index 0..=len/get_node_context of every live node, "
+            "total_node_count, and the same observers on every removed id). Indices are boundary-heavy (0, len-1, len, len+1, "
+            "beyond), ranges include empty and whole-list ranges, a third of the cases churn remove/create to force slot reuse, "
+            "clear is included. Streams: main (precondition-respecting; also monitored against the reference spec and checked by an "
+            "implementation-side consistency oracle), malformed (double attachment, duplicates in set_children/new_with_children, "
+            "dead ids, non-children: the model must predict the exact state or the panic), badrange (ends with an out-of-range "
+            "remove_children_range: both sides must panic; known C03 finding). Non-trivial = at least 3 edits; distinct = distinct "
+            "transcripts.",
+    "trusted_base": [
+        "models of slotmap 1.1.x (basic.rs SlotMap insert/remove/get/clear, secondary.rs insert/remove/get) and of the structural "
+        "methods of src/tree/taffy_tree.rs are hand-written (Model/SlotMap.lean, Model/Tree.lean); tied to the code by exact "
+        "comparison of every returned id (idx.version), every answer and a full observable dump after every operation",
+        "reference spec Model/Forest.lean is what the property monitor runs beside the implementation",
+        "NodeData is reduced to has_context; mark_dirty is modelled by its panic site only (no layout is ever computed in these "
+        "histories, so every cache is empty and the recursion to ancestors never starts)",
+    ],
+    "assumptions": [
+        "ids passed to the API are ids the tree handed out (NodeId -> key conversion forces the version odd; identity on those)",
+        "fewer than 2^32-1 slots (SlotMap is full panic is a `panic` outcome in the model and excluded by the precondition)",
+        "remove_children_range out of range panics (known finding of C03) and is excluded by the precondition",
+        "the precondition of the statement admits parent cycles (add_child(a,b); add_child(b,a)); acyclicity is therefore not claimed "
+        "(theorem cycle_reachable)",
+    ],
+    "level_text": "For every finite history of structural TaffyTree operations that respects the stated precondition, starting from "
+                  "TaffyTree::new(): the three slot maps stay well-formed and in lock-step (identical key sets, identical ids handed "
+                  "out), every child list mentions only live nodes and none twice, parent(c) = Some(p) exactly when c is in "
+                  "children(p) (so each node occurs at most once over all lists), and no operation panics (induction over the "
+                  "history). Corollaries: position of an inserted/appended child, child_count/child_at_index/children agree, "
+                  "total_node_count = number of live keys, a removed node is gone from all maps and lists and its children become "
+                  "roots, set_children installs the list and reparents, every index error is reported exactly when out of bounds and "
+                  "leaves the tree unchanged (for every state, no precondition), an id returned by a creating operation was never live "
+                  "earlier in the history (any history shorter than 2^32-1 ops, valid or not), and every observer answers what the "
+                  "reference forest abs(t) answers. The model is tied to the code by exact comparison on "
+                  "generated histories including malformed ones.",
+    "level_note": "Trusted: Lean kernel; hand-written models of slotmap and of taffy_tree.rs (validated by the correspondence run, ids "
+                  "and dumps compared exactly). Not proved: acyclicity (false under the stated precondition, witness proved); the "
+                  "step-by-step simulation abs(step t op) = specStep(abs t, op) is not a single theorem (per-operation effect theorems + "
+                  "observer refinement are; the spec itself is replayed against the implementation by the monitor). "
+                  "Axioms: propext, Classical.choice, Quot.sound.",
+    "technique": "Lean 4 invariant proof by induction over operation histories on a line-by-line model of slotmap + TaffyTree, "
+                 "differential correspondence with the real TaffyTree, reference-spec monitor",
+}
+
 HOOK_COMMITS = [
     "5207efe",
 ]
 
 _pending = "check not built yet in this revision of /verif (planned, see DESIGN.md §8)"
 NOT_APPLICABLE = {p: _pending for p in
-                  ["C01", "C03", "C04", "C05", "C06", "C07", "C08", "C09", "C10", "C11", "C12", "C14", "C16", "C17", "C19"]}
+                  ["C01", "C03", "C04", "C05", "C06", "C07", "C08", "C09", "C10", "C11", "C12", "C16", "C17", "C19"]}
 
